@@ -163,18 +163,45 @@ def Tag.render (t : Tag) : List Nat := tagByte t.b0 ++ tagByte t.b1 ++ tagByte t
     exact values of the f64s. -/
 abbrev Loc := List (Tag × Rat)
 
-/-- `format!("{tag}_{:.2}", pos.to_f64())` (fontir paths.rs:34) -/
-def kernEntry (e : Tag × Rat) : List Nat := e.1.render ++ 0x5F :: fmt2 e.2
-
 /-- `Vec<String>::join("_")` -/
 def joinUnderscore : List (List Nat) → List Nat
   | [] => []
   | [x] => x
   | x :: y :: r => x ++ 0x5F :: joinUnderscore (y :: r)
 
-/-- file name of `kern_ir_file` (fontir paths.rs:30-39) -/
-def kernFileName (l : Loc) : List Nat :=
-  lit "kern_" ++ joinUnderscore (l.map kernEntry) ++ lit ".yml"
+/-! ### kerning-instance file, current code (fontir paths.rs `kern_ir_file`, after 75d720d)
+
+  `format!("{tag}_{pos}")` prints the coordinate with f64's `Display`: the shortest decimal text that
+  parses back to the same f64 (−0.0 is folded into 0 first). That printer (Grisu/Ryu in `core::fmt`) is
+  not modelled: it is a parameter `pr : Rat → List Nat` of the model, the theorems assume what they need
+  of it (`PrintInjective`, `PrintNoUnderscore`), and the driver checks both on every case against the
+  real texts. -/
+
+/-- the float printer sends different values to different texts -/
+def PrintInjective (pr : Rat → List Nat) : Prop := ∀ x y, pr x = pr y → x = y
+
+/-- the float printer never prints '_' (digits, '-', '.' only) -/
+def PrintNoUnderscore (pr : Rat → List Nat) : Prop := ∀ x, 0x5F ∉ pr x
+
+/-- `format!("{tag}_{pos}")` -/
+def kernEntry (pr : Rat → List Nat) (e : Tag × Rat) : List Nat := e.1.render ++ 0x5F :: pr e.2
+
+/-- the name handed to `string_to_filename` -/
+def kernName (pr : Rat → List Nat) (l : Loc) : List Nat :=
+  lit "kern_" ++ joinUnderscore (l.map (kernEntry pr))
+
+/-- file name of `kern_ir_file` -/
+def kernFileName (pr : Rat → List Nat) (l : Loc) : List Nat :=
+  stringToFilename (kernName pr l) (lit ".yml")
+
+/-! ### kerning-instance file as it was before 75d720d (kept for the record of the defect) -/
+
+/-- `format!("{tag}_{:.2}", pos.to_f64())` -/
+def kernEntryOld (e : Tag × Rat) : List Nat := e.1.render ++ 0x5F :: fmt2 e.2
+
+/-- old `kern_ir_file`: `"kern_" + join("_") + ".yml"`, not passed through `string_to_filename` -/
+def kernFileNameOld (l : Loc) : List Nat :=
+  lit "kern_" ++ joinUnderscore (l.map kernEntryOld) ++ lit ".yml"
 
 /-- `fontir::orchestration::WorkId` (orchestration.rs:297) -/
 inductive FeId where
@@ -193,9 +220,9 @@ inductive FeId where
   | paintGraph
   deriving DecidableEq, Repr, Inhabited
 
-/-- `fontir::paths::Paths::target_file`, relative to the build directory, '/'-separated
-    (fontir paths.rs:41-57) -/
-def feTarget : FeId → List Nat
+/-- `fontir::paths::Paths::target_file`, relative to the build directory, '/'-separated;
+    `pr` is the float printer (see `kernFileName`) -/
+def feTarget (pr : Rat → List Nat) : FeId → List Nat
   | .anchor name => lit "anchor_ir/" ++ stringToFilename name (lit ".yml")
   | .staticMetadata => lit "static_metadata.yml"
   | .preliminaryGlyphOrder => lit "glyph_order.preliminary.yml"
@@ -206,7 +233,7 @@ def feTarget : FeId → List Nat
   | .glyph name => lit "glyph_ir/" ++ stringToFilename name (lit ".yml")
   | .features => lit "features.yml"
   | .kerningLocations => lit "kern_locations.yml"
-  | .kernInstance loc => kernFileName loc
+  | .kernInstance loc => kernFileName pr loc
   | .colorPalettes => lit "colors.yml"
   | .paintGraph => lit "paint_graph.yml"
 
@@ -272,8 +299,8 @@ inductive AnyId where
   | be (id : BeId)
   deriving DecidableEq, Repr, Inhabited
 
-def anyTarget : AnyId → List Nat
-  | .fe id => feTarget id
+def anyTarget (pr : Rat → List Nat) : AnyId → List Nat
+  | .fe id => feTarget pr id
   | .be id => beTarget id
 
 end Fontc.Paths
